@@ -39,7 +39,7 @@ CONFIG = {
 }
 REQUIRED = ['pdf_rows_checked', 'logpdf_rows_checked', 'rows_zero_density', 'rows_positive_density', 'rows_boundary',
             'rvs_rows_checked', 'grad_points_checked', 'shape_checks', 'sel_sorted', 'sel_perm', 'sel_subset',
-            'specs_hierarchical', 'specs_custom_dist']
+            'specs_hierarchical', 'specs_custom_dist', 'rows_where_the_product_underflows_but_no_conditional_is_zero']
 
 NPTS = 40
 MARGIN = 0.05          # interior margin for gradient points (>= 100 x the reference step)
@@ -253,6 +253,10 @@ def gen_points(spec, n, seed):
     nbound = 0
     for r in range(n):
         all_inside = rng.random() < 0.35
+        # deep-tail rows: every scipy parameter with an unbounded upper tail sits where its own conditional density is
+        # about 1e-190 (> 0 in floating point); with two or more of them the PRODUCT underflows although no conditional
+        # density is zero, so the log-density must still be finite there
+        far_row = rng.random() < 0.06
         for p in spec['params']:
             args = [col[a['ref']][r] if isinstance(a, dict) else a for a in p['args']]
             d = _scipy(p['dist'])
@@ -279,6 +283,11 @@ def gen_points(spec, n, seed):
                     x = e + sgn * float(rng.choice([1e-9, 0.1, 1.0]))
                     if p['name'] in pos and x <= 0 and lo > 0:
                         x = lo * float(rng.uniform(0.1, 0.9))
+            if far_row and p.get('form') != 'custom' and hi == np.inf:
+                with np.errstate(all='ignore'):
+                    xf = float(d.isf(1e-190, *args))
+                if np.isfinite(xf) and np.isfinite(float(d.logpdf(xf, *args))):
+                    x = xf
             if p['name'] in pos and not x > 1e-6:
                 x = inside if inside > 1e-6 else float(rng.uniform(0.5, 1.5))
             col[p['name']][r] = x
@@ -407,6 +416,7 @@ def run_case(ctx, case):
         raise Violation(key, 'logpdf=%r but the sum of the conditional scipy logpdfs is %r (%s, requested %s)' % (
             got_l[i], ref_l[i], case['mode'], order), wit(i))
     ctx.event('logpdf_rows_checked', int(valid.sum()))
+    ctx.event('rows_where_the_product_underflows_but_no_conditional_is_zero', int((valid & ~some_zero & (ref_l < -745)).sum()))
     # exact -inf set
     bad = np.where(valid & (np.isneginf(got_l) != some_zero))[0]
     if len(bad):
@@ -488,6 +498,8 @@ def run_case(ctx, case):
     inter = []
     for i in np.where(valid & ~some_zero)[0]:
         x = X[i]
+        if ref_l[i] < -400 or np.abs(x).max() > 1e6:
+            continue      # deep-tail rows: a fixed-step finite difference (elfi's numgrad and the reference alike) has no accuracy there
         pts = np.vstack([x + s * MARGIN * np.eye(dim)[j] for j in range(dim) for s in (-1.0, 1.0)])
         if np.all(np.isfinite(ref_logpdf_rows(spec, order, pts))):
             inter.append(int(i))
